@@ -589,12 +589,12 @@ def flush(ctx, pending):
 def run(ctx):
     rnd = ctx.rng
     pending = []
-    for k in range(ctx.n(60, 500)):
+    for k in range(ctx.n(150, 1200)):
         one_mesh(ctx, rnd, pending)
         if len(pending) > 200:
             flush(ctx, pending)
     flush(ctx, pending)
-    for k in range(ctx.n(15, 100)):
+    for k in range(ctx.n(30, 200)):
         one_mesh(ctx, rnd, pending, misaligned=True)
     flush(ctx, pending)
     if ctx.driver is None:   # no model: larger oracle budget
